@@ -35,15 +35,16 @@ pub fn render_attr(o: &Opts, rng: &mut Rng) -> String {
         items.push(format!("variables_derives = {:?}", d));
     }
     match o.deprecation {
+        // (the documented lower-case spellings; other spellings are the business of C18's own check)
         "warn" => {
             if rng.chance(50) {
-                items.push(format!("deprecated = {:?}", rng.pick(&["warn", "WARN", "Warn"])));
+                items.push("deprecated = \"warn\"".into());
             }
         }
-        d => items.push(format!("deprecated = {:?}", if rng.chance(25) { d.to_uppercase() } else { d.to_string() })),
+        d => items.push(format!("deprecated = {:?}", d)),
     }
     if o.normalization_rust {
-        items.push(format!("normalization = {:?}", rng.pick(&["rust", "Rust"])));
+        items.push("normalization = \"rust\"".into());
     } else if rng.chance(50) {
         items.push("normalization = \"none\"".into());
     }
